@@ -73,3 +73,4 @@ def check(run, model, tier):
     run.inst('ORDER.start_at', f, 'the state is not overwritten after init()', not late, 'start_at rewrites the state after init(): %s' % [norm(n.ast) for n in late], obligation=True)
     for a in ('H1-H4 handler protocol (see C01)',):
         run.assume(a)
+    hsmrules.protocol_census(run, model)
